@@ -43,7 +43,7 @@ impl Offer {
             Offer::Both => BOTH,
         }
     }
-    fn name(self) -> &'static str {
+    pub(crate) fn name(self) -> &'static str {
         match self {
             Offer::V12 => "tls1.2-only",
             Offer::V13 => "tls1.3-only",
@@ -51,7 +51,7 @@ impl Offer {
         }
     }
     /// highest offered version as 12 / 13
-    fn max(self) -> u8 {
+    pub(crate) fn max(self) -> u8 {
         match self {
             Offer::V12 => 12,
             _ => 13,
